@@ -639,3 +639,60 @@ def resolve_aliases(fn, expr):
     return _subst(expr, env)
   except NotAPredicate:
     return expr
+
+
+# -- VirtualMachine dispatch ---------------------------------------------------------
+
+def dispatch_prefix(ctx):
+  """The handler-name prefix of VirtualMachine.run_instruction's dispatch.
+
+  Like rules/_opcodes.dispatch_prefix (`getattr(self, f"<prefix>{op.name}"[,
+  default])` with `op` the opcode parameter), but the lookup may also sit in a
+  method of the VirtualMachine that run_instruction calls as
+  `self.<helper>(.., op, ..)` (two levels), `op` being followed into the
+  helper's parameter.  Exactly one such lookup must exist."""
+  from rules import _opcodes as O
+  from sa.pyindex import get_module
+  mod = get_module(ctx, O.VM)
+  methods, _ = O.vm_methods(ctx)
+  fn = mod.func("VirtualMachine.run_instruction")
+  found = []
+  seen = set()
+
+  def scan(f, opnames, depth):
+    if (f, tuple(sorted(opnames))) in seen:
+      return
+    seen.add((f, tuple(sorted(opnames))))
+    selfname = f.args.args[0].arg if f.args.args else None
+    for n in ast.walk(f):
+      if not isinstance(n, ast.Call):
+        continue
+      if dotted(n.func) == "getattr" and len(n.args) >= 2 and dotted(n.args[0]) == selfname \
+          and isinstance(n.args[1], ast.JoinedStr):
+        js = n.args[1]
+        if len(js.values) == 2 and isinstance(js.values[0], ast.Constant) and \
+            isinstance(js.values[1], ast.FormattedValue) and \
+            dotted(js.values[1].value) in {f"{p}.name" for p in opnames}:
+          found.append(js.values[0].value)
+      elif depth > 0 and isinstance(n.func, ast.Attribute) and dotted(n.func.value) == selfname \
+          and isinstance(methods.get(n.func.attr), ast.FunctionDef):
+        callee = methods[n.func.attr]
+        try:
+          pairs = _bind(callee, n, True)
+        except NotInlinable:
+          continue
+        inner = {p for p, v in pairs if isinstance(v, ast.Name) and v.id in opnames}
+        stored = {x.id for x in ast.walk(callee) if isinstance(x, ast.Name)
+                  and isinstance(x.ctx, ast.Store)}
+        inner -= stored
+        if inner:
+          scan(callee, inner, depth - 1)
+
+  params = [a.arg for a in fn.args.args]
+  stored = {x.id for x in ast.walk(fn) if isinstance(x, ast.Name) and isinstance(x.ctx, ast.Store)}
+  scan(fn, set(params[1:]) - stored, 2)
+  if len(found) != 1:
+    raise AnalysisError(
+        f"{O.VM}: run_instruction's dispatch `getattr(self, f\"byte_{{op.name}}\")` "
+        f"not found (matches: {found})")
+  return found[0]
